@@ -13,6 +13,9 @@ func oracle(stream, in, outp string) {
 	defer out.Close()
 	s := &sdsSUT{}
 	defer s.close()
+	st := &streamSUT{}
+	defer st.close()
+	rf := &refsSUT{}
 	verdict, open, idx := "", false, 0
 	flush := func() {
 		if open {
@@ -34,6 +37,12 @@ func oracle(stream, in, outp string) {
 			return oracleAuthOp(f)
 		case "parse":
 			return oracleParseOp(f)
+		case "stream":
+			if f[0] == "stream" {
+				return st.oracleStream(f)
+			}
+		case "refs":
+			return rf.oracleOp(f)
 		case "sds":
 			if f[0] == "gen" {
 				return s.oracleGen(f)
@@ -48,6 +57,7 @@ func oracle(stream, in, outp string) {
 		if f[0] == "case" {
 			flush()
 			s.reset()
+			rf.reset()
 			verdict, open, idx = "", true, 0
 			continue
 		}
